@@ -408,3 +408,33 @@ func VerifC10Exists() {
 	verifAssert(verifQuiesce() == 0, "C10.noleak")
 	verifReach("C10.exists.end")
 }
+
+func init() {
+	verifRegister("VerifC10Big", VerifC10Big)
+}
+
+// VerifC10Big: sizes instead of spellings. Two or three root blocks whose printed text exceeds 4096 bytes each (a child
+// with a 5000-byte name: larger than the default buffer of a bufio.Writer), massive text output under a write-yield
+// policy: the output is a permutation of the blocks the simple mode prints for each root, every block whole and
+// contiguous, and nothing is left behind. (Whatever buffers sit between a worker and the caller's writer, a block must
+// not reach the writer in pieces that another worker's pieces can come between.)
+func VerifC10Big() {
+	k := 2 + int(verifChoose("roots", 0, 1))
+	var rows, blocks []string
+	for i := 0; i < k; i++ {
+		l := string(rune('a' + i))
+		r := []string{"- r" + l, "  - " + c10Rep(l, 5000), "  - z"}
+		rows = append(rows, r...)
+		w := newVerifWriter()
+		err := OutputFromMarkdown(w, &verifReader{lines: r})
+		verifAssert(err == nil, "C10.big.simple")
+		blocks = append(blocks, w.out)
+	}
+	w := newVerifWriter()
+	verifContext("C10.big")
+	err := OutputFromMarkdown(w, &verifReader{lines: rows}, WithMassive(context.Background()))
+	verifAssert(err == nil, "C10.big.nil")
+	verifAssert(c10Perm(w.out, blocks), "C10.big.same")
+	verifAssert(verifQuiesce() == 0, "C10.noleak")
+	verifReach("C10.big.end")
+}
